@@ -214,6 +214,23 @@ fn finish_zone(z: &mut SZone) -> Result<(), String> {
                 z.insert(&owner, T_NSEC3, r.ttl().as_secs(), vec![compose(r.data())]);
             }
             z.nsec3_index.sort();
+            // Opt-Out is a flag of the single NSEC3 record (RFC 5155 3.1.2.1): in half of the opt-out zones only some
+            // records keep it - every record whose span holds the hash of an unsigned delegation, and about half of the rest
+            let mixed = opt_out && salt.first().map(|b| b & 1 == 1).unwrap_or(false);
+            if mixed {
+                let hidden: Vec<Vec<u8>> = cuts.iter().filter(|cn| z.get(cn, T_DS).is_none()).map(|cn| crate::p13::nsec3_hash(&w::lower(cn), &salt, iterations).to_vec()).collect();
+                let idx = z.nsec3_index.clone();
+                for (i, (h, owner)) in idx.iter().enumerate() {
+                    let next = &idx[(i + 1) % idx.len()].0;
+                    let in_span = |x: &Vec<u8>| if h < next { x > h && x < next } else { x > h || x < next };
+                    if hidden.iter().any(|x| in_span(x)) || h[0] % 2 == 1 {
+                        continue;
+                    }
+                    if let Some(set) = z.sets.get_mut(&(owner.clone(), T_NSEC3)) {
+                        set.rdatas[0][1] &= 0xFE;
+                    }
+                }
+            }
         }
     }
     // signatures
@@ -1331,6 +1348,33 @@ fn one_world(c: &mut Ctx, rt: &tokio::runtime::Runtime, fam: &str, idx: u64) {
         if want == "Secure" && has_cover && zones_on_chain.iter().any(|zi| optout(*zi)) {
             if zones_on_chain.len() == 1 {
                 want = "Insecure";
+                // where only some NSEC3 records of the zone carry the flag, the one covering the next closer name decides
+                // (RFC 5155 9.2); with the flag on the record that denies the wildcard only, either verdict is accepted,
+                // and so it is for chains of several links
+                let z = &world.zones[fz];
+                let flag = |s: Option<&Set>| s.map(|s| s.rdatas[0][1] & 1 == 1);
+                let all_flagged = z.sets.values().filter(|s| s.rtype == T_NSEC3).all(|s| s.rdatas[0][1] & 1 == 1);
+                if !all_flagged {
+                    c.count("answers_from_zones_with_mixed_opt_out_flags", 1);
+                    if matches!(resp.kind, "nxdomain" | "wildcard" | "nodata-wildcard") && !resp.answer.iter().any(|x| x.1 == T_CNAME) {
+                        let (ce, next) = World::closest_encloser(z, &q.0);
+                        let mut star = vec![1, b'*'];
+                        star.extend_from_slice(&ce);
+                        match (flag(World::nsec3_cover(z, &next)), flag(World::nsec3_cover(z, &star))) {
+                            (Some(true), _) => {
+                                c.count("opt_out_on_the_next_closer_cover_only_or_both", 1);
+                            }
+                            (Some(false), Some(true)) => either = true,
+                            (Some(false), _) => {
+                                want = "Secure";
+                                c.count("opt_out_zone_answer_proven_without_opt_out_records", 1);
+                            }
+                            (None, _) => either = true,
+                        }
+                    } else {
+                        either = true;
+                    }
+                }
             } else {
                 either = true;
             }
@@ -1351,7 +1395,7 @@ fn one_world(c: &mut Ctx, rt: &tokio::runtime::Runtime, fam: &str, idx: u64) {
                     c.violation("too-many-upstream-requests", &format!("{} upstream requests for one validation", nreq), c.replay_of(fam, idx, ex(q, json!({}))));
                     continue;
                 }
-                if *s != want && !(either && *s == "Insecure") {
+                if *s != want && !(either && (*s == "Insecure" || *s == "Secure")) {
                     let sig = if want == "Secure" { format!("honest-answer-not-secure:{}:{}:{}", resp.kind, dk, s) } else if *s == "Secure" { format!("secure-without-chain:{}", resp.kind) } else { format!("insecure-zone-reported-{}:{}", s, resp.kind) };
                     c.violation(&sig, &format!("an untouched {} answer ({} TYPE{}) from a correctly signed hierarchy validates as {}, expected {}", resp.kind, w::name_text(&q.0), q.1, s, want), c.replay_of(fam, idx, ex(q, json!({"wire": hex(&wire)}))));
                     continue;
